@@ -61,12 +61,27 @@ instance : Monad Res where
 @[simp] theorem bind_panic {α β} (s : String) (f : α → Res β) : ((Res.panic s : Res α) >>= f) = .panic s := rfl
 @[simp] theorem bind_fuel {α β} (f : α → Res β) : ((Res.fuel : Res α) >>= f) = .fuel := rfl
 @[simp] theorem pure_eq {α} (a : α) : (pure a : Res α) = .ok a := rfl
+@[simp] theorem bind_ok' {α β} (a : α) (f : α → Res β) : (Res.ok a).bind f = f a := rfl
+@[simp] theorem bind_err' {α β} (e : PErr) (f : α → Res β) : (Res.err e : Res α).bind f = .err e := rfl
+@[simp] theorem bind_panic' {α β} (s : String) (f : α → Res β) : (Res.panic s : Res α).bind f = .panic s := rfl
+@[simp] theorem bind_fuel' {α β} (f : α → Res β) : (Res.fuel : Res α).bind f = .fuel := rfl
 
 /-- attach the output printed so far to an error -/
 def tagOut {α} (r : Res α) (o : List Out) : Res α :=
   match r with
   | .err e => .err { e with out := o }
   | r => r
+
+theorem bind_eq_ok {α β} {r : Res α} {f : α → Res β} {b : β} (h : r.bind f = .ok b) : ∃ a, r = .ok a ∧ f a = .ok b := by
+  cases r <;> simp_all [Res.bind]
+
+theorem tagOut_eq_ok {α} {r : Res α} {o : List Out} {a : α} (h : r.tagOut o = .ok a) : r = .ok a := by
+  cases r <;> simp_all [Res.tagOut]
+
+@[simp] theorem tagOut_ok {α} (a : α) (o : List Out) : (Res.ok a).tagOut o = .ok a := rfl
+@[simp] theorem tagOut_panic {α} (p : String) (o : List Out) : (Res.panic p : Res α).tagOut o = .panic p := rfl
+@[simp] theorem tagOut_fuel {α} (o : List Out) : (Res.fuel : Res α).tagOut o = .fuel := rfl
+@[simp] theorem tagOut_err {α} (e : PErr) (o : List Out) : (Res.err e : Res α).tagOut o = .err { e with out := o } := rfl
 
 def isPanic {α} : Res α → Bool
   | .panic _ => true
